@@ -1,6 +1,60 @@
-(* C02 — placeholder while the invariants are being proved (see Proofs/ExecProofs.v). *)
-From Coq Require Import List.
-From FB Require Import Model.Exec.
-Example C02_model_runs : exists nt s, run nt 1 (init nt) nil = Ok s.
-Proof. exists nil, (init nil). reflexivity. Qed.
-Print Assumptions C02_model_runs.
+(* C02 — Failed events reach exactly the node's own error handler, once.
+   An error report is the item (event id, error code) travelling in the handler's channel; the harness checks
+   on the real code that the report carries the very event pointer and the very error value (Judge/E1.v,
+   harness/e1: itemOf), the model carries them as the pair.  Proofs in Proofs/Exec*.v. *)
+From Coq Require Import List ZArith Bool Arith.
+From FB Require Import Model.Exec Model.TraceSpec Model.ExecInv.
+From FB Require Proofs.ExecProps Proofs.ExecSupply Proofs.ExecSpec Proofs.ExecCount.
+Import ListNotations.
+
+(* a failure is delivered to the node's own handler and to nobody else, as (original event, that error) *)
+Theorem C02_failure_goes_to_own_handler_only : forall nt n it err d,
+  In d (deliveries nt n it (OFail err)) -> nhandler (info nt n) = Some (fst d) /\ snd d = (fst it, err).
+Proof. exact ExecProps.failure_goes_to_own_handler. Qed.
+
+(* a node without handler only counts the failure *)
+Theorem C02_no_handler_counts_only : forall nt n it err,
+  nhandler (info nt n) = None -> deliveries nt n it (OFail err) = [].
+Proof. exact ExecProps.failure_without_handler_offers_nothing. Qed.
+
+(* successes and filtered events produce no report: results go to children only *)
+Theorem C02_success_produces_no_report : forall nt n it es d,
+  In d (deliveries nt n it (ORes es)) -> In (fst d) (nkids (info nt n)) /\ exists e, In e es /\ snd d = (e, 0%Z).
+Proof. exact ExecProps.results_go_to_children_only. Qed.
+
+(* conservation for the handler channel h of node n, for every schedule: the failure reports of n (sync
+   returns with an error and async error callbacks alike) = enqueued at h + discarded at h's full buffer (only
+   if h is marked discard_on_full_buffer) + still pending.  No other node contributes to h. *)
+Theorem C02_report_conservation : forall nt T s n h x,
+  wf_net nt = true -> reachable nt T s -> ExecSupply.handler_is nt n h = true ->
+  count_item x (failreps n (tr s))
+  = count_item x (offered (node s h)) + count_item x (dropped (node s h)) + pending h x s.
+Proof.
+  intros nt T s n h x Hwf Hr Hh.
+  rewrite <- (ExecSupply.produced_handler nt h x n (tr s) Hwf Hh).
+  exact (proj1 (ExecCount.count_inv_reachable nt T s Hr) h x).
+Qed.
+
+(* hence, exactly once: a handler never sees more copies of a report than its own node produced *)
+Theorem C02_at_most_once : forall nt T s c x,
+  wf_net nt = true -> reachable nt T s -> c < length nt ->
+  count_item x (entered c (tr s)) <= count_item x (supply nt c (tr s)).
+Proof. exact ExecProps.entered_le_supply. Qed.
+
+(* ... and at the end of a clean run exactly as many (minus counted discards): see C01_clean_end_exact. *)
+Theorem C02_clean_end_exact : forall nt T s c x,
+  ExecProps.good_net nt -> reachable nt T s -> mn s = MDone -> timedout s = false -> c < length nt ->
+  count_item x (supply nt c (tr s)) = count_item x (entered c (tr s)) + count_item x (dropped (node s c))
+  /\ q (node s c) = [] /\ pending c x s = 0.
+Proof. exact ExecProps.clean_end_exact. Qed.
+
+(* whether the handler is a sync or an async node: the handler is an ordinary row of the table with the kind
+   of its processor (Model/Settle.flat), driven by the same Return / Callback actions; the judge compares that
+   kind with Context.NodeType of the real handler context on every case (component 1). *)
+
+Print Assumptions C02_failure_goes_to_own_handler_only.
+Print Assumptions C02_no_handler_counts_only.
+Print Assumptions C02_success_produces_no_report.
+Print Assumptions C02_report_conservation.
+Print Assumptions C02_at_most_once.
+Print Assumptions C02_clean_end_exact.
